@@ -262,7 +262,7 @@ def extract():
     if not (md and mc and mr):
         raise ExtractError("translate_operator changed shape")
     guard = 'letsource=arg.into_source();iftext.ends_with(\'-\')&&source.starts_with(\'-\'){text+="(";text+=&source;text+=")";}else{text+=&source;}'
-    if guard in sq and "text+=s;" in sq:
+    if guard in squeeze(nocomment(osrc[s2:e2])) and "text+=s;" in sq:
         info["minus_guard"] = True       # fixes/F3b: an operand whose text starts with `-` directly after a `-` is wrapped
     elif "text+=&arg.into_source();" in sq and "text+=s;" in sq:
         info["minus_guard"] = False
